@@ -76,6 +76,23 @@ def gen_plain_comp(rng, big=2000):
     return show_comp(gen_desc(rng), blob, actual, False)
 
 
+def gen_enc_comp(rng, big=300, tagged=True):
+    """a component marked for session-key encryption (any position, any length mod 16)"""
+    blob = gen_payload(rng, big)
+    d = [(t, v) for t, v in gen_desc(rng, maxtl=60) if t != 0xC2]
+    if tagged:
+        d.insert(rng.randrange(len(d) + 1), (0xC2, b"\x02"))
+    actual = rng.choice([len(blob), len(blob), 1, max(1, len(blob) - 1)])
+    return show_comp(d, blob, actual, True)
+
+
+def gen_mixed_comps(rng, big=300, maxn=5, penc=0.4):
+    """plain and encrypted components in any order"""
+    n = rng.choice([1, 2, 2, 3, 3, maxn])
+    return ";".join(gen_enc_comp(rng, big, rng.random() < 0.9) if rng.random() < penc else gen_plain_comp(rng, big)
+                    for _ in range(n))
+
+
 def gen_comps(rng, big=2000, maxn=6):
     n = rng.choice([0, 1, 1, 2, 2, 3, maxn])
     return ";".join(gen_plain_comp(rng, big) for _ in range(n)) or "-"
